@@ -220,7 +220,7 @@ def run_minimize(cj, basis, params, cutmode, cutseed, validate):
     # exact synthesis of a cone of more than four gates without a time limit can keep a solver busy for hours
     # (it has to prove that no smaller circuit exists): unlimited search only for small cones
     if params.get('solver_time_limit_sec') == 0 and params.get('max_subcircuit_size', 9) > 4:
-        params = dict(params, solver_time_limit_sec=15)
+        params = dict(params, solver_time_limit_sec=4)
     import mockturtle_wrapper as mw
     from cirbo.minimization.subcircuit import minimize_subcircuits
 
@@ -368,6 +368,9 @@ def has_dead_logic(cj):
     return any(g[1] != 'INPUT' and g[0] not in seen for g in cj['gates'])
 
 
+_VAL = [0]
+
+
 def check_case(ctx, cj, basis, params, cutmode, cutseed, audit=True):
     inp = {'c': cj, 'basis': basis, 'params': params, 'cutmode': cutmode, 'cutseed': cutseed}
     want = tts(cj)
@@ -401,6 +404,9 @@ def check_case(ctx, cj, basis, params, cutmode, cutseed, audit=True):
     ctx.count('improved' if nontrivial(res) < nontrivial(cj) else 'same_size')
     if audit:
         audit_steps(ctx, cj, r, inp)
+    _VAL[0] += 1
+    if ctx.tier == 'thorough' and _VAL[0] % 3:
+        return
     rv = run_minimize(cj, basis, params, cutmode, cutseed, validate=True)
     if rv.get('err') == 'FailedValidationError':
         ctx.violation('min.validation', 'enable_validation=True reported a failed validation', input=inp)
@@ -408,6 +414,8 @@ def check_case(ctx, cj, basis, params, cutmode, cutseed, audit=True):
 
 class _ChildCtx:
     """collects what check_case reports, in a child interpreter"""
+    tier = 'quick'
+
     def __init__(self):
         self.violations = []
         self.counts = {}
@@ -476,32 +484,32 @@ def search(ctx):
         check_case(ctx, cj, basis, params, cutmode, cutseed)
     base = int(__import__('os').environ.get('PYTHONHASHSEED', '0') or 0)
     corpus_under_hash_seeds(ctx, [base + 1, base + 2, base + 3] if ctx.tier == 'quick' else [base + i for i in range(1, 9)])
-    for k in range(ctx.scale(60, 1500)):
+    for k in range(ctx.scale(60, 300)):
         cj, basis, params, cutmode, cutseed = gen_leaf_reads_cone(rng, k)
         ctx.case(json.dumps(['leafcone', cj['gates'], cj['inputs'], cj['outputs'], basis, params, cutmode, cutseed]))
         ctx.count('leaf_reads_cone')
         check_case(ctx, cj, basis, params, cutmode, cutseed)
-    for k in range(ctx.scale(60, 1500)):
+    for k in range(ctx.scale(60, 300)):
         cj, basis, params, cutmode, cutseed = gen_leaf_above_output(rng, k)
         ctx.case(json.dumps(['leafabove', cj['gates'], cj['outputs'], basis, params, cutmode, cutseed]))
         ctx.count('leaf_above_cone_output')
         check_case(ctx, cj, basis, params, cutmode, cutseed)
-    for k in range(ctx.scale(40, 800)):
+    for k in range(ctx.scale(40, 200)):
         cj, basis, params, cutmode, cutseed = gen_stale_cone(rng, k)
         ctx.case(json.dumps(['stale', cj['gates'], cj['inputs'], cj['outputs'], basis, cutmode, cutseed]))
         ctx.count('stale_cone')
         check_case(ctx, cj, basis, params, cutmode, cutseed)
-    for k in range(ctx.scale(60, 600)):
+    for k in range(ctx.scale(60, 300)):
         cj, basis, params, cutmode, cutseed = gen_correlated(rng, k)
         ctx.case(json.dumps(['corr', cj['gates'], cj['outputs'], basis]))
         ctx.count('correlated_leaves')
         check_case(ctx, cj, basis, params, cutmode, cutseed)
-    for k in range(ctx.scale(40, 400)):
+    for k in range(ctx.scale(40, 200)):
         cj, basis, params, cutmode, cutseed = gen_nary_cone(rng, k)
         ctx.case(json.dumps(['nary', cj['gates'], cj['outputs'], basis]))
         ctx.count('nary_cone')
         check_case(ctx, cj, basis, params, cutmode, cutseed)
-    for k in range(ctx.scale(120, 2500)):
+    for k in range(ctx.scale(120, 1000)):
         cj, basis, params, cutmode, cutseed = gen_case(rng)
         ctx.case(json.dumps([cj['gates'], cj['outputs'], basis, params, cutmode, cutseed]))
         ctx.count('cutmode=' + cutmode)
